@@ -454,3 +454,94 @@ func TestVF_C17(t *testing.T) {
 }
 
 var _ = fmt.Sprint
+
+// ---------------------------------------------------------------------------------------------
+// C12, every single-fault placement: for a generated fault-free event list, each individual sink call
+// (every start / write / stop / check of the three sinks that the run reaches) is made to fail in turn.
+
+func vfGenC12Single(t *rapid.T) vfC12Case {
+	o := vfRecGenOpt{bad: true, reset: true, test: true, maxEv: 120, cont: 1, variants: false}
+	c := vfRecCase{Cfg: vfGenRecCfg(t, o)}
+	c.Cfg.Cont = rapid.Bool().Draw(t, "cont")
+	c.Ev = vfGenEvents(t, c.Cfg, o)
+	return vfC12Finish(c)
+}
+
+func vfRunC12Single(c vfC12Case) *kit.Result {
+	r := &kit.Result{}
+	if msg := vfValidRecCase(c.Rec); msg != "" {
+		r.Failf("malformed case: %s", msg)
+		return r
+	}
+	// replay of one placement: the fault plan is already in the case
+	if f := c.Rec.Faults; len(f.Check)+len(f.MStart)+len(f.MWrite)+len(f.MStop)+len(f.CStart)+len(f.CWrite)+len(f.CStop)+len(f.TStart)+len(f.TWrite)+len(f.TStop) > 0 {
+		return vfRunC12(c)
+	}
+	base := vfDrive(c.Rec, nil)
+	if base.panicked != "" {
+		r.Failf("%s", base.panicked)
+		return r
+	}
+	counts := map[[2]byte]int{}
+	for _, cl := range base.tr.calls {
+		if cl.Ev < c.Suffix { // placements before the recovery suffix
+			counts[[2]byte{cl.S, cl.C}]++
+		}
+	}
+	placements, reached := 0, 0
+	set := func(f *vfFaults, k [2]byte, n int) {
+		l := []int{n}
+		switch k {
+		case [2]byte{'m', 'K'}:
+			f.Check = l
+		case [2]byte{'m', 'S'}:
+			f.MStart = l
+		case [2]byte{'m', 'W'}:
+			f.MWrite = l
+		case [2]byte{'m', 'P'}:
+			f.MStop = l
+		case [2]byte{'c', 'S'}:
+			f.CStart = l
+		case [2]byte{'c', 'W'}:
+			f.CWrite = l
+		case [2]byte{'c', 'P'}:
+			f.CStop = l
+		case [2]byte{'t', 'S'}:
+			f.TStart = l
+		case [2]byte{'t', 'W'}:
+			f.TWrite = l
+		case [2]byte{'t', 'P'}:
+			f.TStop = l
+		}
+	}
+	for _, k := range [][2]byte{{'m', 'K'}, {'m', 'S'}, {'m', 'W'}, {'m', 'P'}, {'c', 'S'}, {'c', 'W'}, {'c', 'P'}, {'t', 'S'}, {'t', 'W'}, {'t', 'P'}} {
+		for n := 0; n < counts[k]; n++ {
+			cc := c
+			cc.Rec.Faults = vfFaults{}
+			set(&cc.Rec.Faults, k, n)
+			pr := vfRunC12(cc)
+			placements++
+			for _, cl := range pr.Classes {
+				if cl == "fault_reached" {
+					reached++
+				}
+			}
+			if pr.Err != "" {
+				r.Err = fmt.Sprintf("single fault on call %d of sink %c/%c: %s", n, k[0], k[1], pr.Err)
+				r.ReplayCase = cc
+				return r
+			}
+		}
+	}
+	r.ExtraEvals = placements
+	r.ExtraNT = reached
+	r.NT = placements > 0
+	r.Count("single_fault_placements", placements)
+	return r
+}
+
+func TestVF_C12_SingleFault(t *testing.T) {
+	kit.Drive(t, "C12", "TestVF_C12_SingleFault",
+		"generated fault-free event lists (<=120 events, as TestVF_C12); then EVERY individual sink call the run makes before the recovery suffix (each check / start / write / stop of the motion, continuous and test sink) is made to fail in turn - a complete enumeration of single-fault placements per event list - with the oracles of TestVF_C12. Evaluations count the placements; non-trivial ones are those where the injected fault was reached.",
+		vfGenC12Single, vfRunC12Single)
+}
